@@ -154,6 +154,55 @@ pub fn check(sc: &Scenario, env: &mut Env) -> Result<Outcome, HarnessError> {
                 out.violate("C13", "once", wi, format!("{} saw {:?}", who, items), items);
             }
         }
+        // "because a glob's component cannot match it": a directory whose own name fails the glob
+        // component at its position can contain no match and is discarded as a tree by the glob
+        // walk itself; nothing beneath it may reach any downstream observer (judged on the feed of
+        // the underlying walk, which every layer above inherits).
+        if let Source::Glob { expr, rooted: false } = &w.source {
+            let comps = crate::oracle::leading_components(expr);
+            if !comps.is_empty() && !expr.starts_with('.') {
+                use wax::Program;
+                let hopeless: Vec<&str> = u
+                    .entries
+                    .iter()
+                    .filter(|e| e.is_dir && is_below(&e.wp, &w.base))
+                    .filter(|e| {
+                        let names: Vec<&str> = rel_to(&e.wp, &w.base).split('/').collect();
+                        let j = names.len();
+                        j <= comps.len() && !comps[j - 1].is_match(names[j - 1])
+                    })
+                    .map(|e| e.wp.as_str())
+                    .collect();
+                let mut leaks: Vec<String> = u
+                    .entries
+                    .iter()
+                    .filter(|e| hopeless.iter().any(|h| is_below(&e.wp, h)))
+                    .map(|e| format!("leak:{}", e.wp))
+                    .collect();
+                leaks.extend(
+                    u.errors
+                        .iter()
+                        .filter_map(|e| e.wp.clone())
+                        .filter(|p| hopeless.iter().any(|h| is_below(p, h)))
+                        .map(|p| format!("leak-error:{}", p)),
+                );
+                if !hopeless.is_empty() {
+                    out.probe("glob:component-cannot-match-directory");
+                }
+                if !leaks.is_empty() {
+                    out.violate(
+                        "C13",
+                        "leak",
+                        wi,
+                        format!(
+                            "glob {:?}: directories {:?} cannot match their component, yet entries beneath them were produced downstream: {:?}",
+                            expr, hopeless, leaks
+                        ),
+                        leaks,
+                    );
+                }
+            }
+        }
         if ex.nontrivial {
             out.nontrivial = true;
         }
